@@ -5,7 +5,7 @@ import random
 
 from vf.core.result import Res
 from vf.gen.ir import E, num, source
-from vf.progcheck import Accept, blocks_equal, model_of, run_ir
+from vf.progcheck import Accept, blocks_equal, model_of, run_ir, same_output
 from vf.ref import ips
 
 LEVEL = "exploration"
@@ -167,12 +167,18 @@ def check_wellformed(res: Res, rng: random.Random, recs: list[dict], delta: int,
     for sh in shifts:
         want = expected_records(recs, delta + sh)
         i = find_sub(rest, want)
+        if i < 0 and isinstance(model_of(p1), Accept) and blocks_equal(model_of(p1).blocks, r1.blocks) is None:
+            # the records are not handed over one call each (joined with neighbours, or in another order without overlap): the output as a
+            # whole equals the reference's, which places every record at offset + delta in file order
+            res.count("records_judged_by_image")
+            res.count("wellformed_judged")
+            return
         if i < 0:
             res.violate("records-not-reproduced",
                         f"the write_block calls do not contain the file's {len(want)} record(s) at offset+delta in order: got {[(hex(a), len(b)) for a, b in got][:8]}, records {[(hex(a), len(b)) for a, b in want][:8]}", wit)
             return
         del rest[i:i + len(want)]
-    if rest != [(a, bytes(b)) for a, b in r0.blocks]:
+    if not same_output(rest, r0.blocks):
         res.violate("host-program-disturbed", f"blocks other than the records differ from the program without the directive: {blocks_equal(r0.blocks, rest)}", wit)
         return
     if sorted(r1.labels) != sorted(r0.labels):
